@@ -95,37 +95,54 @@ Judge == tid <= 0 \\/ LET v == %(verdict)s(Traces[tid]%(field)s) IN v = "ok" \\/
 JUDGE_CFG = "SPECIFICATION JSpec\nINVARIANT Judge\nCHECK_DEADLOCK FALSE\n"
 
 
-def judge(monitor, traces, verdict='Verdict', field='.tr', ids=None, timeout=3600, batch=4000):
-    """Evaluate the TLA+ monitor `monitor`!Verdict over each trace with TLC.
-    `traces` is a list of JSON-able objects having an `id` and the field the verdict is applied to.
+def _judge_batch(args):
+    name, text, part, timeout = args
+    d = tlc.scratch_dir()
+    try:
+        path = os.path.join(d, 'traces.ndjson')
+        with open(path, 'w') as fh:
+            for t in part:
+                fh.write(json.dumps(tlc.tlcify(t), separators=(',', ':')) + '\n')
+        res = tlc.run((name, text), JUDGE_CFG, env={"TRACE_FILE": path}, timeout=timeout, workers=2, heap='2g')
+        if res.violated:
+            return None, 'judge run failed: %s' % res.error
+        rej = []
+        for line in res.tuples:
+            tup = tlc.parse_tuple(line)
+            if tup and tup[0] == 'REJECT':
+                rej.append((tup[1], tup[2]))
+        if res.distinct != len(part) + NPROC + 1:
+            return None, 'judge visited %d states for %d traces' % (res.distinct, len(part))
+        return (rej, res.distinct), None
+    except tlc.TLCError as e:
+        return None, str(e)
+    finally:
+        import shutil
+        shutil.rmtree(d, ignore_errors=True)
+
+
+def judge(monitor, traces, verdict='Verdict', field='.tr', ids=None, timeout=3600, batch=None):
+    """Evaluate the TLA+ monitor `monitor`!Verdict over each trace with TLC (batches run as parallel TLC
+    processes).  `traces` is a list of JSON-able objects having an `id` and the field the verdict is applied to.
     Returns (rejections: list of (id, clause), states, wall)."""
-    rej = []
-    states = 0
+    from concurrent.futures import ThreadPoolExecutor
     t0 = time.time()
     name = 'Judge_' + monitor
     text = JUDGE_TEMPLATE % {"name": name, "monitor": monitor, "buckets": NPROC, "verdict": verdict, "field": field}
-    for start in range(0, len(traces), batch):
-        part = traces[start:start + batch]
-        d = tlc.scratch_dir()
-        try:
-            path = os.path.join(d, 'traces.ndjson')
-            with open(path, 'w') as fh:
-                for t in part:
-                    fh.write(json.dumps(tlc.tlcify(t), separators=(',', ':')) + '\n')
-            res = tlc.run((name, text), JUDGE_CFG, env={"TRACE_FILE": path}, timeout=timeout)
-            if res.violated:
-                raise MachineryFailure('judge run failed: %s' % res.error)
-            states += res.distinct
-            seen = 0
-            for line in res.tuples:
-                tup = tlc.parse_tuple(line)
-                if tup and tup[0] == 'REJECT':
-                    rej.append((tup[1], tup[2]))
-            if res.distinct != len(part) + NPROC + 1:
-                raise MachineryFailure('judge visited %d states for %d traces' % (res.distinct, len(part)))
-        finally:
-            import shutil
-            shutil.rmtree(d, ignore_errors=True)
+    if not traces:
+        return [], 0, 0.0
+    nb = max(1, min(NPROC // 2, (len(traces) + 199) // 200))
+    size = (len(traces) + nb - 1) // nb
+    if batch:
+        size = min(size, batch)
+    parts = [traces[i:i + size] for i in range(0, len(traces), size)]
+    rej, states = [], 0
+    with ThreadPoolExecutor(max_workers=max(1, NPROC // 2)) as ex:
+        for out, err in ex.map(_judge_batch, [(name, text, p, timeout) for p in parts]):
+            if err:
+                raise MachineryFailure(err)
+            rej.extend(out[0])
+            states += out[1]
     return rej, states, time.time() - t0
 
 
